@@ -40,7 +40,7 @@ func init() {
 			return &fsad.SubAdapter{Cfg: sc}
 		}
 		cfg := fsad.Config{AdapterName: kind, PropState: o.attr("state", "C01"), PropErr: o.attr("err", "C05"), PropWF: o.attr("wf", "C03"),
-			PropList: o.attr("list", "C16"), Names: o.Names, Depth: o.Depth, MkFS: mkfs(kind)}
+			PropList: o.attr("list", "C16"), Names: o.Names, Depth: o.Depth, MkFS: mkfs(kind), CheckRootName: kind != "osref"}
 		if kind == "osref" {
 			cfg.Reference = true
 			cfg.PropState, cfg.PropErr, cfg.PropWF, cfg.PropList = "SPEC", "SPEC", "SPEC", "SPEC"
